@@ -88,7 +88,7 @@ pub fn strategy(f: Focus) -> BoxedStrategy<RegCase> {
         Focus::C04 => prop_oneof![1 => Just(0u8), 1 => Just(1u8), 3 => Just(2u8), 3 => Just(3u8)].boxed(),
         _ => prop_oneof![5 => Just(0u8), 1 => Just(1u8), 1 => Just(2u8), 1 => Just(3u8)].boxed(),
     };
-    let prior = (base, prop_oneof![3 => Just(0u8), 2 => 1u8..5]).prop_map(|(b, fl)| b | (fl << 2)).boxed();
+    let prior = (base, prop_oneof![3 => Just(0u8), 2 => 1u8..6]).prop_map(|(b, fl)| b | (fl << 2)).boxed();
     let nsolo = if f == Focus::C03 { 0.6 } else { 0.15 };
     (
         vec(vec(op_strategy(f), 1..6), 2..6),
@@ -268,7 +268,8 @@ fn foreign_sigaction(sig: c_int, variant: u8) {
 /// additional `sa_flags` the third party installed it with (the kernel stores and reports them
 /// verbatim): 1..3 = other flag bits; 4 = `SA_SIGINFO` left set on a default/ignore disposition
 /// (what C code gets when it "disables" a three-argument handler by overwriting only the handler
-/// field of the struct it installed with).
+/// field of the struct it installed with); 5 = `SA_RESETHAND` on a handler (one-shot: the
+/// simulated kernel resets the action to default on entry, as the real one does).
 fn install_prior(sig: c_int, kind: u8) {
     unsafe {
         let mut sa: libc::sigaction = std::mem::zeroed();
@@ -286,6 +287,7 @@ fn install_prior(sig: c_int, kind: u8) {
             2 => libc::SA_NODEFER | libc::SA_ONSTACK | libc::SA_RESTART,
             3 => libc::SA_NOCLDSTOP | libc::SA_NOCLDWAIT,
             4 if kind & 3 < 2 => libc::SA_SIGINFO,
+            5 if kind & 3 >= 2 => libc::SA_RESETHAND,
             _ => 0,
         };
         if kind == 0 {
@@ -351,6 +353,15 @@ pub fn sim_deliver(sig: c_int, solo: bool) {
     } else {
         2
     };
+    if cur.sa_flags & libc::SA_RESETHAND != 0 && target != 0 {
+        // what the kernel does on entry to a one-shot handler: the action goes back to default
+        unsafe {
+            let mut dfl = cur;
+            dfl.sa_sigaction = libc::SIG_DFL;
+            libc::sigaction(sig, &dfl, std::ptr::null_mut());
+        }
+        vsched::mark("deliver-resethand", sig as i64, target);
+    }
     vsched::mark("deliver-start", id as i64, sig as i64);
     vsched::mark("deliver-args", &mut info as *mut siginfo_t as usize as i64, ctx as usize as i64);
     vsched::mark("deliver-target", id as i64, target);
@@ -599,6 +610,7 @@ pub fn analyse(case: &RegCase, res: &RunResult) -> CaseReport {
     let mut installed: Vec<(usize, i64)> = Vec::new();
     let mut installed_tid: HashMap<i64, i32> = HashMap::new();
     let mut foreign_installs: Vec<(usize, i64, i64)> = Vec::new(); // (pos, sig, variant)
+    let mut resethand_on_library: Vec<(usize, i64)> = Vec::new();
     let mut blocked_mutex = false;
     let mut spun = false;
     let mut unexpected_panics: Vec<String> = Vec::new();
@@ -698,6 +710,9 @@ pub fn analyse(case: &RegCase, res: &RunResult) -> CaseReport {
                     }
                 }
                 "foreign-sigaction" => foreign_installs.push((i, *a, *b)),
+                // the kernel reset a one-shot third-party handler to default (variant -1 = none)
+                "deliver-resethand" if *b == 2 => foreign_installs.push((i, *a, -1)),
+                "deliver-resethand" if *b == 1 => resethand_on_library.push((i, *a)),
                 "foreign3-args" => {
                     if let Some(k) = open_del.get(&r.tid).and_then(|s| s.last()) {
                         dels[*k].foreign_args.push((*a, *b));
@@ -1114,7 +1129,7 @@ pub fn analyse(case: &RegCase, res: &RunResult) -> CaseReport {
         };
         for (p, s, v) in &foreign_installs {
             if *s == sig && *p < pos {
-                cur = Some(FOREIGN_NAMES[*v as usize % 4]);
+                cur = if *v < 0 { None } else { Some(FOREIGN_NAMES[*v as usize % 4]) };
             }
         }
         cur
@@ -1141,7 +1156,7 @@ pub fn analyse(case: &RegCase, res: &RunResult) -> CaseReport {
             acceptable.push(prior_at(d.sig, reg_call));
             for (p, s, v) in &foreign_installs {
                 if *s == d.sig && *p > reg_call && *p < ipos {
-                    acceptable.push(Some(FOREIGN_NAMES[*v as usize % 4]));
+                    acceptable.push(if *v < 0 { None } else { Some(FOREIGN_NAMES[*v as usize % 4]) });
                 }
             }
         }
@@ -1191,6 +1206,13 @@ pub fn analyse(case: &RegCase, res: &RunResult) -> CaseReport {
                 rep.viol("C04/args", format!("action received a different info pointer than the kernel passed in delivery {}", d.id));
             }
         }
+    }
+    for (_, sig) in &resethand_on_library {
+        rep.viol("C04/library-handler-one-shot", format!("the library installed its own handler for signal {} as one-shot (SA_RESETHAND): after the first delivery the signal is back at its default action and neither the pre-existing handler nor any action runs again", sig));
+        rep.viol("C05/disposition", format!("the library's handler for signal {} carries SA_RESETHAND: it does not stay the process's disposition", sig));
+    }
+    if case.priors.iter().any(|p| *p & 3 >= 2 && (*p >> 2) & 7 == 5) {
+        rep.class("prior-one-shot-handler");
     }
     if case.priors.iter().any(|p| *p & 3 >= 2) && dels.iter().any(|d| d.target == 1) {
         rep.class("prior-handler-chained");
@@ -1589,7 +1611,7 @@ fn c04_extra(def: &PropDef, _args: &WorkerArgs, report: &mut WorkerReport) {
 pub static C04: PropDef = PropDef {
     id: "C04",
     prefixes: &["C04/"],
-    rule: "same generator with real pre-existing dispositions {default, ignore, plain handler, siginfo handler} x additional sa_flags {none, SA_RESTART, SA_NODEFER|SA_ONSTACK|SA_RESTART, SA_NOCLDSTOP|SA_NOCLDWAIT, SA_SIGINFO left set on default/ignore} installed by sigaction before the run; oracle: every delivery dispatched to the library for a signal with a pre-existing handler calls it exactly once, before any action, with its convention and the kernel's info/context pointers; none for default/ignore. Non-trivial = delivery between the library handler's installation and the completion of that first registration, or during another signal's first registration; distinct = hash of realised interleaving + priors",
+    rule: "same generator with real pre-existing dispositions {default, ignore, plain handler, siginfo handler} x additional sa_flags {none, SA_RESTART, SA_NODEFER|SA_ONSTACK|SA_RESTART, SA_NOCLDSTOP|SA_NOCLDWAIT, SA_RESETHAND (one-shot, modelled by the simulated kernel), SA_SIGINFO left set on default/ignore} installed by sigaction before the run; oracle: every delivery dispatched to the library for a signal with a pre-existing handler calls it exactly once, before any action, with its convention and the kernel's info/context pointers; none for default/ignore. Non-trivial = delivery between the library handler's installation and the completion of that first registration, or during another signal's first registration; distinct = hash of realised interleaving + priors",
     assumptions: ASSUME,
     cases: (1500, 40_000),
     shrink_iters: 600,
